@@ -155,4 +155,23 @@ def cli_create_identical(case, profile):
         shutil.rmtree(d, ignore_errors=True)
 
 
-PY_CMDS = {"cli_getset": cli_getset, "cli_create_flags": cli_create_flags, "cli_create_roundtrip": cli_create_roundtrip, "cli_create_identical": cli_create_identical}
+def cli_create_pan_vs_files(case, profile):
+    exe = ragc_bin(profile)
+    d = tempfile.mkdtemp(prefix="ragc-cli-")
+    try:
+        res = []
+        for tag, files in (("p", case["pan"]), ("f", case["files"])):
+            os.makedirs(os.path.join(d, tag))
+            arc, r = _create(exe, os.path.join(d, tag), files, case.get("threads", 1), 3, tag)
+            if b"panicked" in r.stderr:
+                return {"panic": r.stderr.decode()[-300:]}
+            if r.returncode != 0:
+                return {"ok": False, "why": f"create failed ({tag})", "stderr": r.stderr.decode()[-200:]}
+            got, rr = _extract_all(exe, arc)
+            res.append(got)
+        return {"ok": res[0] == res[1] == case["want"], "pan": res[0], "files": res[1], "want": case["want"]}
+    finally:
+        shutil.rmtree(d, ignore_errors=True)
+
+
+PY_CMDS = {"cli_create_pan_vs_files": cli_create_pan_vs_files, "cli_getset": cli_getset, "cli_create_flags": cli_create_flags, "cli_create_roundtrip": cli_create_roundtrip, "cli_create_identical": cli_create_identical}
